@@ -62,6 +62,10 @@ pub(crate) mod verif_refmgr {
         const NTERM: u32;
         fn terminal_of_id(id: u32) -> Self::Terminal;
         fn id_of_terminal(t: Self::Terminal) -> u32;
+        /// Tag <-> lowest bit of the raw edge value.  (Not `Countable::from_usize`: the derived
+        /// implementation transmutes, and CBMC does not constant-fold the transmuted enum.)
+        fn tag_of_bit(bit: u32) -> Self::Tag;
+        fn bit_of_tag(tag: Self::Tag) -> u32;
 
         // --- used by the audit only (written from the diagram definitions, not
         // from the rules code) ---
@@ -95,7 +99,7 @@ pub(crate) mod verif_refmgr {
         }
         #[inline]
         pub fn new(id: u32, tag: K::Tag) -> Self {
-            Self::from_raw(id << 1 | tag.as_usize() as u32)
+            Self::from_raw(id << 1 | K::bit_of_tag(tag))
         }
         #[inline]
         pub fn raw(&self) -> u32 {
@@ -155,7 +159,7 @@ pub(crate) mod verif_refmgr {
         }
         #[inline]
         fn tag(&self) -> K::Tag {
-            K::Tag::from_usize((self.raw & 1) as usize)
+            K::tag_of_bit(self.raw & 1)
         }
         #[inline]
         fn node_id(&self) -> NodeID {
@@ -1030,6 +1034,12 @@ pub(crate) mod verif_refmgr {
             }
         }
         #[inline]
+        fn tag_of_bit(_bit: u32) -> () {}
+        #[inline]
+        fn bit_of_tag(_tag: ()) -> u32 {
+            0
+        }
+        #[inline]
         fn terminal_value(id: u32) -> bool {
             id == 1
         }
@@ -1062,6 +1072,21 @@ pub(crate) mod verif_refmgr {
         #[inline]
         fn id_of_terminal(_t: Self::Terminal) -> u32 {
             0
+        }
+        #[inline]
+        fn tag_of_bit(bit: u32) -> Self::Tag {
+            if bit == 0 {
+                oxidd_rules_bdd::complement_edge::EdgeTag::None
+            } else {
+                oxidd_rules_bdd::complement_edge::EdgeTag::Complemented
+            }
+        }
+        #[inline]
+        fn bit_of_tag(tag: Self::Tag) -> u32 {
+            match tag {
+                oxidd_rules_bdd::complement_edge::EdgeTag::None => 0,
+                oxidd_rules_bdd::complement_edge::EdgeTag::Complemented => 1,
+            }
         }
         #[inline]
         fn terminal_value(_id: u32) -> bool {
